@@ -57,9 +57,9 @@ type tdesc struct {
 	repaired bool // a known finding of this type no longer reproduces: compare with the repaired descriptor
 }
 
-var baseOps = []string{"P:L", "P:FL", "P:FF", "G", "CK", "FK", "LK", "FV", "LV", "R", "RF", "RL", "C", "SZ", "IE", "IF", "SM", "SO"}
+var baseOps = []string{"TS", "P:L", "P:FL", "P:FF", "G", "CK", "FK", "LK", "FV", "LV", "R", "RF", "RL", "C", "SZ", "IE", "IF", "SM", "SO"}
 var addOps = []string{"A:L", "A:FL", "A:FF"}
-var setOps = []string{"P:L", "P:FL", "P:FF", "CK", "FK", "LK", "R", "RF", "RL", "C", "SZ", "IE", "IF", "SM", "SO"}
+var setOps = []string{"TS", "P:L", "P:FL", "P:FF", "CK", "FK", "LK", "R", "RF", "RL", "C", "SZ", "IE", "IF", "SM", "SO"}
 
 func cat(xs ...[]string) []string {
 	var out []string
@@ -150,6 +150,8 @@ func (t *tdesc) method(o op) string {
 		return "SetMax"
 	case "SO":
 		return "Sort"
+	case "TS":
+		return "ToString"
 	case "TOF":
 		return "ToObject"
 	case "KAW":
@@ -181,7 +183,7 @@ func (t *tdesc) line0(o op) string {
 		return fmt.Sprintf("TOF %d", o.src)
 	case "KAW", "GKS":
 		return "KS"
-	case "EO":
+	case "EO", "TS":
 		return "SZ"
 	case "ED":
 		return "ES"
@@ -382,7 +384,7 @@ type histRes struct {
 // replayLine: the harness-side form of an op (KAW / GKS / EO / ED are not driver lines)
 func (t *tdesc) replayLine(o op) string {
 	switch o.code {
-	case "KAW", "GKS", "EO", "ED":
+	case "KAW", "GKS", "EO", "ED", "TS":
 		return fmt.Sprintf("@%d %s", o.t, o.code)
 	}
 	return t.line(o)
@@ -812,7 +814,7 @@ func genVal(t *tdesc, r *vh.Rng) int64 {
 	return r.Range(-50, 50)
 }
 
-var weights = map[string]int{"TOF": 5, "KAW": 2, "GKS": 2, "EOB": 3, "P:L": 18, "P:FL": 8, "P:FF": 8, "A:L": 5, "A:FL": 3, "A:FF": 3, "AN": 3, "G": 7, "GL": 5, "CK": 5, "CV": 3,
+var weights = map[string]int{"TS": 2, "TOF": 5, "KAW": 2, "GKS": 2, "EOB": 3, "P:L": 18, "P:FL": 8, "P:FF": 8, "A:L": 5, "A:FL": 3, "A:FF": 3, "AN": 3, "G": 7, "GL": 5, "CK": 5, "CV": 3,
 	"FK": 2, "LK": 2, "FV": 2, "LV": 2, "R": 9, "RF": 4, "RL": 4, "C": 1, "SZ": 2, "IE": 1, "IF": 2, "SM": 3, "SO": 2}
 
 // baseOnly: the single-object operations among the available ones
